@@ -246,6 +246,8 @@ class Conn(object):
         self.failed_sends = 0
         self.arrived = []                # every event that reached the server, in order
         self.fail_send_at = ()           # send indices at which the connection drops
+        self.cancel_send_at = ()         # send indices at which the awaiting task is cancelled
+        self.send_cancelled = False
         self.hold = False                # harness may hold back deliveries
         self.recv_after_disconnect = 0
         self.max_outstanding = 0
@@ -303,6 +305,13 @@ class Conn(object):
             self.sends_after_disc_pulled += 1
         if self.send_failed:
             self.sends_after_lost += 1
+        if idx in self.cancel_send_at:
+            # the server cancels the application task while it awaits send()
+            # (shutdown, or a server that cancels on disconnect)
+            import asyncio
+            self.send_cancelled = True
+            self.lost = True
+            raise asyncio.CancelledError()
         if not self.lost and idx in self.fail_send_at:
             self.lose(abrupt=True)
             self.sim.chooser.note_fired('send_fail')
